@@ -28,6 +28,7 @@ type loopMod struct {
 	refs  []modRef
 	inner []modInner
 	alloc string // allocation counter at the loop head
+	noElems bool // "loop N modifies nothing": no backing array that existed at the loop head is written in the loop either
 }
 
 func (c *Ctx) mapTypeName(m *types.Map) string {
